@@ -38,6 +38,7 @@ var lic = vkit.DetLicense(1, "c09")
 var never = time.Unix(0, 0)
 var keyAll = vkit.LicKey(lic, "#/", security.AllowAll&^security.AllowExtend, never, 4242)
 var keyMaster = vkit.LicKey(lic, "", security.AllowMaster, never, 777)
+var keyA = vkit.LicKey(lic, "a/#/", security.AllowAll&^security.AllowExtend, never, 99) // a depth-encoded, non-exact target
 
 var extremes = []string{"0", "1", "5", "100", "100000000", "2147483647", "2147483648", "4294967295", "4294967296", "9223372036854775807", "9223372036854775808",
 	"99999999999999999999", "1e309", "0x10", "007", "18446744073709551615"}
@@ -62,12 +63,14 @@ func sub(topics ...string) []byte {
 	return pkt(p)
 }
 
-func connect(will bool) []byte {
+func connect(will bool) []byte { return connectWill(will, keyAll+"/will/") }
+
+func connectWill(will bool, topic string) []byte {
 	c := packets.NewControlPacket(packets.Connect).(*packets.ConnectPacket)
 	c.ProtocolName, c.ProtocolVersion, c.ClientIdentifier, c.CleanSession, c.Keepalive = "MQTT", 4, "attacker", true, 30
 	c.UsernameFlag, c.Username = true, "mallory"
 	if will {
-		c.WillFlag, c.WillTopic, c.WillMessage = true, keyAll+"/will/", []byte("bye")
+		c.WillFlag, c.WillTopic, c.WillMessage = true, topic, []byte("bye")
 	}
 	return pkt(c)
 }
@@ -77,6 +80,12 @@ func genPacket(t *rapid.T) ([]byte, string) {
 	x := func(l string) string { return rapid.SampledFrom(extremes).Draw(t, l) }
 	switch k := rapid.IntRange(0, 19).Draw(t, "pk"); k {
 	case 0:
+		if rapid.IntRange(0, 2).Draw(t, "deepwill") == 0 {
+			// the last will is published from the connection's deferred Close: a failure there is not recovered
+			depth := rapid.SampledFrom([]int{1, 21, 22, 23, 24, 25, 40}).Draw(t, "willdepth")
+			key := rapid.SampledFrom([]string{keyA, keyAll}).Draw(t, "willkey")
+			return connectWill(true, key+"/a/"+strings.Repeat("l/", depth)+rapid.SampledFrom([]string{"", "?ttl=1&last", "#/"}).Draw(t, "willtail")), "connect-deep-will"
+		}
 		return connect(rapid.Bool().Draw(t, "will")), "connect"
 	case 1:
 		return sub(fmt.Sprintf("%s/a/b/?last=%s", keyAll, x("last"))), "sub-last"
@@ -99,7 +108,12 @@ func genPacket(t *rapid.T) ([]byte, string) {
 		return pub("emitter/"+rapid.SampledFrom([]string{"me/", "unknown/", "", "presence/", "keygen/", "history/", "link/", "keyban/"}).Draw(t, "svc"),
 			rapid.SampledFrom([]string{"{}", "[]", "null", `{"key":12,"channel":[],"type":{},"ttl":"x"}`, "", `{"channel":5}`, strings.Repeat("[", 5000)}).Draw(t, "json"), 1, false), "request-junk-json"
 	case 10:
-		return pub(keyAll+"/"+strings.Repeat("a/", rapid.SampledFrom([]int{30, 1000, 30000}).Draw(t, "depth")), "x", 1, false), "pub-deep-channel"
+		key := rapid.SampledFrom([]string{keyAll, keyA}).Draw(t, "deepkey")
+		depth := rapid.SampledFrom([]int{21, 22, 23, 24, 30, 1000, 30000}).Draw(t, "depth")
+		if rapid.Bool().Draw(t, "deepsub") {
+			return sub(key + "/" + strings.Repeat("a/", depth)), "sub-deep-channel"
+		}
+		return pub(key+"/"+strings.Repeat("a/", depth), "x", 1, false), "pub-deep-channel"
 	case 11:
 		n := rapid.SampledFrom([]int{100, 1000, 5000}).Draw(t, "ntopics")
 		ts := make([]string, n)
